@@ -56,9 +56,10 @@ def overlay_map():
 
 PARAMS = {
     #            mc cfg            mc timeout  sim num depth   gen histories len   K
-    "quick":    (["IRCMC_small.cfg"], 300,     60,  22,         90, 45,           3),
-    "thorough": (["IRCMC_small.cfg", "IRCMC_deep.cfg"], 3000, 600, 30, 900, 60,   5),
+    "quick":    (["IRCMC_small.cfg"], 300,     150, 22,         90, 45,           3),
+    "thorough": (["IRCMC_small.cfg", "IRCMC_deep.cfg"], 3000, 1500, 30, 900, 60,  5),
 }
+FANOUT = {"quick": 4, "thorough": 1}     # fan-out probes from the final state of every n-th history
 EDGECFG = {"quick": "IRCMC_edges1.cfg", "thorough": "IRCMC_edges2.cfg"
 }
 
@@ -142,7 +143,7 @@ def run_engine(ctx):
     ov = ctx.overlay(overlay_map())
     rc, out = ctx.go_test(".", ov, "^TestVerifIRC$", timeout=1500, env={
         "VERIF_IRC_OUT": trace, "VERIF_IRC_IN": prog_file, "VERIF_IRC_GEN": gen, "VERIF_IRC_LEN": glen,
-        "VERIF_IRC_K": k, "VERIF_IRC_SNAP": 1})
+        "VERIF_IRC_K": k, "VERIF_IRC_SNAP": 1, "VERIF_IRC_FANOUT": FANOUT[ctx.tier]})
     if rc != 0 or not os.path.exists(trace):
         raise vlib.Inconclusive("IRC harness failed (rc=%s):\n%s" % (rc, out[-4000:]))
     res["harness_wall_s"] = round(time.time() - t0, 1)
@@ -194,14 +195,47 @@ def run_engine(ctx):
     recs = recs[:-1] + erecs
     steps = [x for x in recs if x["k"] in ("step", "snap")]
     res["model_transitions_replayed"] = len(edges)
+    res["fanout_probes"] = len([x for x in recs if x["k"] == "reset" and x.get("base")])
 
-    # 4. trace validation
+    # 4. trace validation: the trace is cut at history boundaries into chunks validated by parallel TLC runs
     t0 = time.time()
-    rt = ctx.tlc("IRCTrace", cfg="IRCTrace.cfg", workers=1, timeout=1800, files={"irctrace.ndjson": trace},
-                 deadlock=False, name="trace", heap="8g")
-    if "CONFORMING" not in rt.out or not rt.finished or rt.rc != 0:
-        raise vlib.Inconclusive("IRCTrace did not consume the trace: rc=%s\n%s" % (rt.rc, rt.out[-3000:]))
-    res["tlc"]["trace"] = {"generated": rt.generated, "distinct": rt.distinct, "wall_s": round(time.time() - t0, 1)}
+    chunks, cur = [], []
+    for x in recs:
+        if x["k"] == "end":
+            continue
+        if x["k"] == "reset" and len(cur) >= max(400, len(recs) // 12):
+            chunks.append(cur)
+            cur = []
+        cur.append(x)
+    if cur:
+        chunks.append(cur)
+    endrec = {"k": "end", "h": 0, "i": 0, "post": {}, "out": [], "lookup": []}
+
+    def validate(n):
+        path = os.path.join(ctx.scratch, "chunk-%d.ndjson" % n)
+        with open(path, "w") as fh:
+            for x in chunks[n] + [endrec]:
+                fh.write(json.dumps(x, separators=(",", ":")) + "\n")
+        return ctx.tlc("IRCTrace", cfg="IRCTrace.cfg", workers=1, timeout=1800, files={"irctrace.ndjson": path},
+                       deadlock=False, name="trace-%d" % n, heap="3g")
+
+    import concurrent.futures
+    with concurrent.futures.ThreadPoolExecutor(max_workers=int(os.environ.get("VERIF_TRACE_PAR", "8"))) as ex:
+        results = list(ex.map(validate, range(len(chunks))))
+    allout = ""
+    res["tlc"]["trace"] = {"generated": 0, "distinct": 0, "wall_s": 0, "parallel_runs": len(chunks)}
+    res["conforming"] = 0
+    for rt in results:
+        if "CONFORMING" not in rt.out or not rt.finished or rt.rc != 0:
+            raise vlib.Inconclusive("IRCTrace did not consume its trace chunk: rc=%s\n%s" % (rt.rc, rt.out[-3000:]))
+        res["tlc"]["trace"]["generated"] += rt.generated
+        res["tlc"]["trace"]["distinct"] += rt.distinct
+        allout += rt.out + "\n"
+    res["tlc"]["trace"]["wall_s"] = round(time.time() - t0, 1)
+
+    class _RT:
+        out = allout
+    rt = _RT()
     byhi = {}
     for x in steps:
         if x["k"] == "snap" or (x["h"], x["i"]) not in byhi:
@@ -211,9 +245,14 @@ def run_engine(ctx):
         if x["k"] == "reset":
             starts[x["h"]] = idx
 
+    bases = {x["h"]: x["base"] for x in recs if x["k"] == "reset" and x.get("base")}
+
     def history_upto(h, i):
+        pre = []
+        if h in bases:       # fan-out probe: the probed history, then the probe entry
+            pre = history_upto(bases[h], 10 ** 9)
         s = starts[h]
-        return [y["e"] for y in recs[s + 1:] if y["k"] == "step" and y["h"] == h and y["i"] <= i]
+        return pre + [y["e"] for y in recs[s + 1:] if y["k"] == "step" and y["h"] == h and y["i"] <= i]
 
     for item in _parse_tuple_lines(rt.out):
         m = re.match(r'<<"PROP", <<"(C\d+)", "(\w+)">>, (\d+), (\d+)>>', item)
@@ -243,7 +282,7 @@ def run_engine(ctx):
             continue
         m = re.match(r'<<"CONFORMING", (\d+)>>', item)
         if m:
-            res["conforming"] = int(m.group(1))
+            res["conforming"] += int(m.group(1))
     for x in steps[:3] + steps[len(steps) // 2:len(steps) // 2 + 2]:
         res["samples"].append({"entry": {k2: x["e"][k2] for k2 in ("t", "id", "sess", "ts", "data")},
                                "out": [{"cmd": o["cmd"], "to": o["to"], "p": o["p"]} for o in x["out"][:3]],
@@ -367,6 +406,7 @@ def report(ctx, pid, extra_note=None):
     ctx.cov["events_conforming_to_Step"] = res.get("conforming", 0)
     ctx.cov["model_programs_replayed"] = res["tlc"]["sim"]["programs"] + res["scenarios"]
     ctx.cov["model_transitions_replayed"] = res.get("model_transitions_replayed", 0)
+    ctx.cov["fanout_probes_from_reached_states"] = res.get("fanout_probes", 0)
     ctx.cov["tlc_runs"] = res["tlc"]
     ctx.cov["commands_exercised"] = res["cmds"]
     ctx.cov["engine_cached"] = res["cached"]
